@@ -299,7 +299,7 @@ class DumpWatch:
         ref_only_known = all(p['type'] in KNOWN for p in ref_clear) and (ref_inner is None or all(p['type'] in KNOWN for p in ref_inner))
         canon = all(not (t.get('attrs') and (len(t['attrs']) != 1 or t['attrs'][0][0] != 14 or not isinstance(t['attrs'][0][1], int)))
                     for p in (ref_inner or []) + ref_clear if p['type'] == R.P_SA for pr in p['proposals'] for t in pr['transforms'])
-        if ref_only_known and canon and not protected and not any(p['type'] == R.P_DELETE and p.get('spi_size') and not p['spis'] for p in ref_clear):
+        if ref_only_known and canon and not protected and not (data[19] & 0xC7) and not any(p['type'] == R.P_DELETE and p.get('spi_size') and not p['spis'] for p in ref_clear):
             if b1 != data:
                 pos = next((i for i, (x, y) in enumerate(zip(b1, data)) if x != y), min(len(b1), len(data)))
                 return self.viol('encoder_differs_from_reference', {}, f're-serialised accepted message differs from the wire octets at {pos} '
@@ -404,14 +404,15 @@ class Byzantine:
             surplus = bytes(r.getrandbits(8) for _ in range(r.choice([1, 4, 5, 16, 28])))
             exp = ('trailing', 'octets behind the end the header announces: ' + str([PT.get(p['type'], p['type']) for p in pls]))
         cands = [sa for sa in node.ike_sas() if sa.ike_sa_keyring is not None and _keys_for(sa)]
-        flags_variety = r.choice([0, 0, 0x10, 0x01, 0x40]) if exp[0] == 'accept' else 0
+        flags_variety = r.choice([0, 0, 0x10, 0x01, 0x40, 0x80, 0xC7]) if exp[0] == 'accept' else 0       # version / reserved bits: MUST be ignored on receipt
         if cands and r.random() < 0.6:
             sa = r.choice(cands)
             integ_id, sk_a, sk_e = _keys_for(sa)
             spi_i, spi_r = (sa.my_spi, sa.peer_spi) if sa.is_initiator else (sa.peer_spi, sa.my_spi)
             is_res = r.random() < 0.3
             base = sa.my_msg_id if is_res else sa.peer_msg_id
-            h = {'spi_i': spi_i, 'spi_r': spi_r, 'exch': r.choice([35, 36, 37]), 'I': not sa.is_initiator, 'R': is_res, 'id': base + r.choice([3, 9, 50])}
+            h = {'spi_i': spi_i, 'spi_r': spi_r, 'exch': r.choice([35, 36, 37]), 'I': not sa.is_initiator, 'R': is_res, 'id': base + r.choice([3, 9, 50]),
+                 'flags_extra': flags_variety & 0xD7}
             outer = []
             if r.random() < 0.25:
                 # cleartext payloads in front of SK (allowed: SK only has to be the last payload): known ones and unknown non-critical ones
@@ -428,7 +429,7 @@ class Byzantine:
             data = _seal_raw(h, first, chain, integ_id, sk_a, sk_e, bytes(r.getrandbits(8) for _ in range(16)), outer=outer, pad_extra=extra)
             return data + surplus, exp, (pls if exp[0] != 'trailing' else None)
         # clear: an IKE_SA_INIT request is parsed in full whoever sends it (a new responder IKE_SA)
-        flags = 0x08 | (flags_variety & 0x10)
+        flags = 0x08 | (flags_variety & 0xD7)
         total = 28 + len(chain)
         data = struct.pack('>8s8sBBBBLL', bytes(r.getrandbits(8) for _ in range(8)), b'\0' * 8, first, 0x20, 34, flags, 0, total) + chain
         return data + surplus, exp, None
